@@ -735,6 +735,8 @@ def builtin(ex, name, args, kwargs, st, n):
         return SV(PT('setof'), py=args[0])
     if name == 'dict':
         return SV(PT('emptydict'))
+    if name == 'bool' and len(args) == 1:
+        return SV(ptypes.TBool, ex.truth(st, args[0]))
     if ('builtins.' + name) in ex.reg.contracts:
         return call_external(ex, 'builtins.' + name, args, kwargs, st, n)        # a builtin with an assumed contract (e.g. open)
     raise OutOfSubset('builtin %s at line %d' % (name, n.lineno))
